@@ -26,11 +26,24 @@ def load():
 
 
 SKIPPED_KEY = "//rewrites-skipped-at-baseline"
+# Loop-carried locals (variables assigned inside a loop body and declared outside of it, rustlex.loop_carried) of every extracted
+# function on the baseline tree. Why: Verus infers no loop invariant. If a later edit of /repo makes a loop carry a NEW variable
+# (e.g. a second checkpoint that is advanced together with the first), nothing in the template constrains it, and an obligation
+# behind the loop that depends on it fails although the code may be right. Such failures are reported as UNDECIDED ("new
+# loop-carried variable without invariant"), never as a violation; the bounded driver then decides whether a real input fails.
+LOOPVAR_KEY = "//loop-carried-at-baseline"
+
+
+def loop_carried_of(u):
+    # every extracted function is listed (empty list: no loop-carried local): a function the baseline does not know (new unit,
+    # newly extracted item) is judged as always until `python3 -m vf.closures update` has been run
+    return {f["name"]: f.get("loop_carried", []) for f in u.functions}
 
 
 def update(repo="/repo"):
     base = {}
     skipped = {}
+    loopvars = {}
     cdir = os.path.join(ROOT, "contracts")
     for fn in sorted(os.listdir(cdir)):
         if not fn.endswith(".vrs") or fn.startswith("."):
@@ -41,12 +54,16 @@ def update(repo="/repo"):
         if hard:
             raise SystemExit("%s: rewrite directives without a match on the baseline tree (typo or stale template): %r" % (unit, hard))
         base[unit] = {f["name"]: f.get("closures_unannotated", 0) for f in u.functions if f.get("closures_unannotated", 0)}
+        lc = loop_carried_of(u)
+        if lc:
+            loopvars[unit] = lc
         # optional rewrites (alternative spellings a template anticipates) that have no match on the baseline tree: a rewrite
         # that is skipped HERE carries nothing into the committed proof, so its absence later is not a lost proof ingredient
         opt = sorted([w.get("item"), w.get("rule"), w.get("pattern")] for w in getattr(u, "skipped_rewrites", []))
         if opt:
             skipped[unit] = opt
     base[SKIPPED_KEY] = skipped
+    base[LOOPVAR_KEY] = loopvars
     with open(PATH, "w") as f:
         json.dump(base, f, indent=1, sort_keys=True)
         f.write("\n")
@@ -56,4 +73,4 @@ def update(repo="/repo"):
 if __name__ == "__main__":
     if len(sys.argv) > 1 and sys.argv[1] == "update":
         b = update(os.environ.get("VF_REPO", "/repo"))
-        print("closure baseline: %d units (incl. the skipped-rewrite record), %d functions with contract-less closures" % (len(b), sum(len(v) for k, v in b.items() if k != SKIPPED_KEY)))
+        print("closure baseline: %d units (incl. the skipped-rewrite record), %d functions with contract-less closures" % (len(b), sum(len(v) for k, v in b.items() if k not in (SKIPPED_KEY, LOOPVAR_KEY))))
